@@ -549,7 +549,7 @@ ORD_CONS = {
 ORD_VALUES = {
     "int": [0, 0, 0, 3, 5, 10, 12],
     "float": [0, 0, 5, 25, 100],           # tenths
-    "string": ["", "", "ab", "abc", "abcd", "a@b.co"],
+    "string": ["", "", "ab", "abc", "abcd", "a@b.co", " ", "   "],     # a value of blanks is a value
     "bool": [False, False, True],
     "ints": [[3, 4], [3, 4], [1, 2], [1, 2], [], [5, 5, 5], [1, 2, 3], [3], [0, 1], [2, 4]],
     "strs": [["abcd", "efgh"], ["abcd", "efgh"], ["a", "bc"], ["a", "bc"], [], ["abc", "d"], ["a", "b", "c"], ["ab", "cd"], ["", "x"]],
@@ -569,6 +569,8 @@ def gen_ordered_case(rng, cid, ftype=None, cons=None, val=None, route=None, opti
     route = route or rng.choice(routes)
     if ftype == "string" and val == "" and route == "expression":
         route = "placeholder"                      # an expression whose result is '' is known finding KF-C18b: not this class
+    if ftype == "string" and val.strip() == "" and route == "default":
+        route = "placeholder"                      # default texts are C16's
     if ftype == "float":
         tree[k] = P.norm_dec(val, -1)
         txt = lambda: P.dec_text(val, -1)
